@@ -1,0 +1,40 @@
+//go:build verif
+
+package step
+
+// Contracts of the step provider interfaces, read by the govc verifier (build tag
+// verif). This file contains no executable code.
+//
+// Ghost protocol state of a running step, changed only by the notification callbacks:
+//   reported(s, stage)  0 = nothing reported, 1 = reported finished, 2 = declared impossible
+//   completions(s)      number of OnStepComplete notifications
+//   declares(s, stage, output)  the step's lifecycle declares this output for this stage
+//@ ghost reported(s RunningStep, stage string) int
+//@ ghost completions(s RunningStep) int
+//@ pure declares(s RunningStep, stage string, output string) bool
+//
+//@ func iface StageChangeHandler.OnStageChange(step, previousStage, previousStageOutputID, previousStageOutput, newStage, inputAvailable, wg)
+//@   requires [no-lock-held-in-callback] nolocks()
+//@   requires [stage-finished-at-most-once] previousStage != nil ==> reported(step, *previousStage) == 0
+//@   requires [output-declared-for-stage] previousStage != nil && previousStageOutputID != nil ==> declares(step, *previousStage, *previousStageOutputID) && previousStageOutput != nil
+//@   requires [no-stage-change-after-completion] completions(step) == 0
+//@   modifies ghost reported
+//@   ensures previousStage != nil ==> reported(step, *previousStage) == 1
+//@   ensures forall s RunningStep, g string :: (previousStage == nil || s != step || g != *previousStage) ==> reported(s, g) == old(reported(s, g))
+//
+//@ func iface StageChangeHandler.OnStepComplete(step, previousStage, previousStageOutputID, previousStageOutput, wg)
+//@   requires [no-lock-held-in-callback] nolocks()
+//@   requires [stage-finished-at-most-once] reported(step, previousStage) == 0
+//@   requires [output-declared-for-stage] previousStageOutputID != nil ==> declares(step, previousStage, *previousStageOutputID) && previousStageOutput != nil
+//@   requires [exactly-one-completion] completions(step) == 0
+//@   modifies ghost reported, ghost completions
+//@   ensures reported(step, previousStage) == 1 && completions(step) == 1
+//@   ensures forall s RunningStep, g string :: (s != step || g != previousStage) ==> reported(s, g) == old(reported(s, g))
+//@   ensures forall s RunningStep :: s != step ==> completions(s) == old(completions(s))
+//
+//@ func iface StageChangeHandler.OnStepStageFailure(step, stage, wg, err)
+//@   requires [no-lock-held-in-callback] nolocks()
+//@   requires [never-both-finished-and-impossible] reported(step, stage) != 1
+//@   modifies ghost reported
+//@   ensures reported(step, stage) == 2
+//@   ensures forall s RunningStep, g string :: (s != step || g != stage) ==> reported(s, g) == old(reported(s, g))
